@@ -18,3 +18,4 @@ open Rtsp.Ledger.C11
 #print axioms udp_port_collision_removes_registration
 #print axioms timeout_always_enabled
 #print axioms pointers_valid
+#print axioms other_conns_tables_unaffected
